@@ -12,9 +12,12 @@ from harness.props import c06
 OBLIGATIONS = [
     "PgmVerif.C10_cache_transparent", "PgmVerif.C10_cache_bounded", "PgmVerif.C10_counts_row_perm",
     "PgmVerif.C10_unobserved_config_k2", "PgmVerif.C10_unobserved_config_bd", "PgmVerif.C10_rising_gamma",
+    "PgmVerif.C10_bdeu_covered_edge", "PgmVerif.C10_loglik_covered_edge", "PgmVerif.C10_nparams_covered_edge",
 ]
-PARTIAL = ["score equivalence over all Markov-equivalent pairs needs Chickering's covered-edge sequence theorem: decided on sampled equivalent "
-           "pairs (covered-edge reversals) by the correspondence", "lgamma / log accuracy of scipy/math is trusted; scores are compared in the "
+PARTIAL = ["score equivalence is proved for one covered-edge reversal (BDeu product, maximised likelihood and parameter count are symmetric for "
+           "every count table); that any two Markov-equivalent DAGs are joined by such reversals is Chickering's theorem, not proved here; the "
+           "implementation is compared on sampled equivalent pairs by the correspondence; the count table N is tied to the data by the model's "
+           "localCounts, which the correspondence compares with the implementation's state_counts", "lgamma / log accuracy of scipy/math is trusted; scores are compared in the "
            "log domain against exact rationals"]
 RULE = ("discrete data frames on 2-5 columns (sparse: unobserved parent configurations and declared-but-unobserved states), all (variable, "
         "parent list) pairs with <=2 parents in random order, ESS in {1,5,10,2.5}; non-trivial = at least one parent; distinct = case JSON")
@@ -23,11 +26,13 @@ BUDGET_QUICK = 80
 LEVEL_TEXT = ("Kernel-checked: the LRU score cache, for every call history and every max_size >= 1, returns exactly the base scorer's value "
               "and never holds more than max_size entries; local-count tables are invariant under row permutation; a parent configuration "
               "that never occurs contributes the factor 1 (score term 0) to K2 and BDeu, as the closed forms demand; rising factorials "
-              "satisfy the Gamma recurrence used to express the scores as rationals. The five local scores, network scores, the cache and "
+              "satisfy the Gamma recurrence used to express the scores as rationals; for EVERY table of counts, every equivalent sample size > 0 "
+              "and all cardinalities, reversing a covered edge X -> Y leaves the BDeu product, the maximised likelihood (empty cells and rows "
+              "included) and the number of free parameters unchanged, i.e. BDeu, BIC and AIC are score equivalent step by step. The five local scores, network scores, the cache and "
               "the metric wrapper are compared in the log domain with the exact rational closed forms on sparse data; Markov-equivalent pairs "
               "obtained by covered-edge reversals must score identically for BDeu/BIC/AIC (differential, partial).")
 LEVEL_NOTE = "Trusted: Lean kernel + standard axioms; model; harness; scipy gammaln / math.log accuracy (tolerance 1e-9 relative)."
-TECHNIQUE = "Lean 4 proof (LRU refinement, count invariance, closed-form terms) + log-domain differential check against exact rational scores"
+TECHNIQUE = "Lean 4 proof (LRU refinement, covered-edge score equivalence of BDeu/BIC/AIC, count invariance, closed-form terms) + log-domain differential check against exact rational scores"
 
 KINDS = ["k2", "bdeu", "bds", "bic", "aic"]
 
